@@ -56,11 +56,11 @@ chk("C12","exploration",
  "shard tag = bits 12..22 of the event id",
  "bounded exhaustive input x configuration enumeration against the routing invariants","unitx+histx","DESIGN.md §3 C12")
 chk("C20","exploration",
- "every command of a result-shape alphabet is answered by the same storage state through the JSON, Arrow and text renderers (real response writer); the three byte streams are decoded independently (serde_json, arrow_ipc, a line parser) and compared: status, column names, row count, every cell, announced row count; over layouts and response batch sizes",
- "only results the engine itself produces (no hand-built column batches); exact-case known findings in known/C20.*.json",
+ "every command of a result-shape alphabet is answered by the same storage state through the JSON, Arrow and text renderers (real response writer); the three byte streams are decoded independently (serde_json, arrow_ipc, a line parser) and compared: status, column names, row count, every cell, announced row count; over layouts and response batch sizes; plus, at component level (hook H6), the real QUERY and SHOW response writers fed with every composition of n<=5 (thorough 7) rows into batches x every duplicate-id pattern x LIMIT x OFFSET x streaming batch size, rendered three times and compared the same way",
+ "end-to-end part: only results the engine itself produces; writer-level part: well-typed cells only (cells whose runtime type differs from the declared one are not fed); exact-case known findings in known/C20.*.json",
  "bounded exhaustive enumeration of result shapes with a three-way differential oracle over independent decoders","unitx+histx","DESIGN.md §3 C20")
 chk("C16","exploration",
- "instants (incl. before 1970 and at the digit-count boundaries of the unit heuristic) x spellings (epoch s/ms/us/ns as numbers and strings, float seconds, RFC 3339 with four offsets and fractional seconds) x four sites (STORE payload, SINCE USING, WHERE literal under all six operators, PER bucket under five granularities) x timezone / week-start configurations x {memory, flushed}; the stored value must be the instant's epoch second, and each literal / bucket is judged against the values the system itself returns",
+ "instants (incl. before 1970 and at the digit-count boundaries of the unit heuristic) x spellings (epoch s/ms/us/ns as numbers and strings, float seconds, RFC 3339 with four offsets and fractional seconds .25/.5/.75/.999999, float seconds + 0.7, milliseconds + 700) x four sites (STORE payload, SINCE USING, WHERE literal under all six operators, PER bucket under five granularities) x timezone / week-start configurations x {memory, flushed}; the stored value must be the instant's epoch second, and each literal / bucket is judged against the values the system itself returns",
  "independent integer calendar arithmetic; flushed layout restricted to a narrow cluster of instants (the temporal index builder does not cope with spans of decades); exact-case known findings in known/C16.*.json",
  "bounded exhaustive input enumeration against an independent reference of instant arithmetic","unitx+histx","DESIGN.md §3 C16")
 chk("C15","exploration",
